@@ -98,7 +98,8 @@ func enumC01(c *fw.Ctx, do func(src, shard string) bool) {
 		{
 			// (a) cell table in contexts, with variables and fields of every dynamic type
 			pre := `var vi = 7; var vf = 2.5; var vs = "a"; var vb = true; var vn; `
-			operands := append(append([]string{}, gen.AtomsT...), "vi", "vf", "vs", "vb", "vn")
+			// computed NaN and infinities (no literal spells them) are operands too
+			operands := append(append([]string{}, gen.AtomsT...), "vi", "vf", "vs", "vb", "vn", "(0.0/0.0)", "(1e308*10)", "(0-1e308*10)", "(0.0*(0-1))")
 			for _, a := range operands {
 				for _, ctx := range c01Contexts(a) {
 					do(pre+ctx, "")
@@ -121,6 +122,8 @@ func enumC01(c *fw.Ctx, do func(src, shard string) bool) {
 				for _, b := range []string{"fi", "ff", "fs", "fb", "fn", "TYPE", "NAME", "2", `"a"`} {
 					for _, op := range gen.BinOps {
 						do(`def blk "nm" { fi = 7; ff = 2.5; fs = "a"; fb = false; fn = nil; r = `+a+" "+op+" "+b+`; print r }`, "")
+						// the same operands read from a nested block (fields of the enclosing block, one of them nil, one shadowed)
+						do(`def blk "nm" { fi = 7; ff = 2.5; fs = "a"; fb = false; fn = nil; def mid { fs = nil; def kid "k" { r = `+a+" "+op+" "+b+`; print r } } }`, "")
 						// the same operands after a child block (and an earlier block's child) that used the same field names has ended
 						do(`def old { def kid { fi = "x"; ff = 1; fs = 3; fb = true; fn = 9; fz = 5 } }; def blk "nm" { fi = 7; ff = 2.5; fs = "a"; fb = false; fn = nil; def kid "k" { fi = 2.5; ff = "y"; fs = nil; fb = 1; fn = "n" }; r = `+a+" "+op+" "+b+`; print r }`, "")
 					}
